@@ -21,21 +21,31 @@ static char *f_cv (void *o, char *b, int n) { return nsync_cv_debug_state ((nsyn
 static char *f_cvw (void *o, char *b, int n) { return nsync_cv_debug_state_and_waiters ((nsync_cv *) o, b, n); }
 static int id;
 static void probe (dbgfn f, void *o) {
-	static char big[4096]; unsigned char frame[MAXN + 64]; int n, i;
-	memset (big, 0x55, sizeof big);
-	f (o, big, (int) sizeof big);
+	static char big[4096], big2[4096]; static unsigned char frames[MAXN + 1][MAXN + 64]; static int oks[MAXN + 1];
+	int n, i, tries;
+	/* the state must be quiescent: the text before and after the sweep over n has to be the same, else settle and retry */
+	for (tries = 0; tries < 8; tries++) {
+		memset (big, 0x55, sizeof big); memset (big2, 0x55, sizeof big2);
+		f (o, big, (int) sizeof big);
+		for (n = 0; n <= MAXN; n++) {
+			oks[n] = 1;
+			memset (frames[n], 0xA5, sizeof frames[n]);
+			f (o, (char *) frames[n] + 32, n);
+			for (i = 0; i < 32; i++) if (frames[n][i] != 0xA5) oks[n] = 0;
+			for (i = 32 + n; i < (int) sizeof frames[n]; i++) if (frames[n][i] != 0xA5) oks[n] = 0;
+		}
+		f (o, big2, (int) sizeof big2);
+		if (strcmp (big, big2) == 0) break;
+		usleep (80000);
+	}
+	if (tries == 8) return;        /* never settled: skipped (counted by the caller as fewer texts) */
 	id++;
 	printf ("T %d %d", id, (int) strlen (big));
 	for (i = 0; big[i]; i++) printf (" %d", (unsigned char) big[i]);
 	printf ("\n");
 	for (n = 0; n <= MAXN; n++) {
-		int ok = 1;
-		memset (frame, 0xA5, sizeof frame);
-		f (o, (char *) frame + 32, n);
-		for (i = 0; i < 32; i++) if (frame[i] != 0xA5) ok = 0;
-		for (i = 32 + n; i < (int) sizeof frame; i++) if (frame[i] != 0xA5) ok = 0;
-		printf ("B %d %d %d", id, n, ok);
-		for (i = 0; i < n; i++) printf (" %d", frame[32 + i]);
+		printf ("B %d %d %d", id, n, oks[n]);
+		for (i = 0; i < n; i++) printf (" %d", frames[n][32 + i]);
 		printf ("\n");
 	}
 }
